@@ -21,7 +21,7 @@ EXTENDS Naturals, Sequences, FiniteSets, TLC
 
 InternalKinds == {"index_out_of_bounds", "unwrap_none", "unwrap_err", "unreachable", "unimplemented",
                   "arithmetic_overflow", "slice_or_char_boundary", "expect_failed", "bare_assert", "refcell",
-                  "stack_overflow", "capacity_overflow"}
+                  "stack_overflow", "capacity_overflow", "built_unparsable_tokens", "dependency_assertion"}
 Outcomes == {"impl", "diagnostic"} \cup {"internal:" \o k : k \in InternalKinds} \cup {"timeout"}
 Allowed(o) == o \in {"impl", "diagnostic"}
 
